@@ -276,7 +276,7 @@ class Gen:
                 if o.allow_requests and r.random() < 0.7:
                     ops.append({"op": "request", "kind": "cv", "name": f"cv{i}", "save": True})
                     self.count("req:cv")
-        reqs = self.gen_requests() if o.allow_requests else []
+        reqs = self.gen_requests([op["name"] for op in ops if op["op"] == "request"]) if o.allow_requests else []
         ops += reqs
         self.count("strats", len(self.strats))
         self.count("comps_final", len(self.comps))
@@ -526,10 +526,10 @@ class Gen:
         return {"op": "adjust_split", "strat": s["name"], "filter": flt, "props": [[k, C(v)] for k, v in zip(strata, props)]}
 
     # ------------------------------------------------------------------ derived outputs
-    def gen_requests(self):
+    def gen_requests(self, existing=()):
         r, o = self.r, self.o
         reqs = []
-        names = []
+        names = list(existing)      # computed-value outputs requested earlier can be sources of aggregate / cumulative / function outputs
         n = r.randint(0, o.n_requests)
         flow_names = sorted(set(f[0] for f in self.flows))
         for i in range(n):
